@@ -573,6 +573,7 @@ func (x *Exec) applyContract(fr *Frame, st *State, spec *FuncSpec, key string, n
 	}
 	if fr.isTop {
 		x.sitePost[fmt.Sprintf("%s@%d", key, occ)] = st.clone()
+		x.siteRes[fmt.Sprintf("%s@%d", key, occ)] = res
 	}
 	return res
 }
